@@ -449,7 +449,7 @@ PROPS['C05'] = {
             'truncation at every kind of offset, cut at block boundaries incl. dropping the terminator, appended data, swapped / duplicated / dropped blocks, header edit with the '
             'SHA-256 recomputed, multi-byte edits}; opened with the correct credentials; oracle: Database::open gives an error, or the same database and configuration as the original, and Database::get_xml gives an error, or the same inner XML',
     'partial': ['the idealisation of HMAC (Unforgeable: what verifies under the key of index i is the block the writer authenticated at index i, for data blocks and for the empty end-of-stream block) is a hypothesis of C05_blocks_prefix / C05_blocks_whole, not a theorem'],
-    'level_text': 'Kernel-checked over the faithful model: every accepted block was authenticated under the key of its own index and the stream ended with an authenticated empty block, so under the HMAC idealisation the accepted data is the whole original data, never a strict prefix (C05_blocks_whole, after the repair of F21); '
+    'level_text': 'Kernel-checked over the faithful model: every accepted block was authenticated under the key of its own index and the stream ended with an authenticated empty block, so under the HMAC idealisation the accepted data is the whole original data, never a strict prefix (C05_blocks_whole, after the repair of F21), and a byte string with the original outer header whose block stream meets that idealisation decrypts, if at all, to the original result (C05_whole_file); '
                   'header bytes are authenticated by the header MAC. Validated against the real reader (open and get_xml) on attacker mutations.',
 }
 PROPS['C06'] = {
